@@ -26,7 +26,7 @@ inductive ErrKind
   | noPrefix                 -- noPrefixParseFnError
   | badFloat                 -- parseFloatLiteral
   | lambdaParams             -- parseLambdaMulti
-  | illegalParam             -- parameter: invalid character in a parameter list
+  | funcParams               -- parseFunctionParameters (paramError: not an identifier list; an invalid character has its own wording)
   deriving DecidableEq, Repr
 
 inductive Res (α : Type)
@@ -178,12 +178,9 @@ def okParamList : NList → Option (Option Tk × Bool)
     else if t.type != .IDENT then some (some t, false)
     else okParamList rest
 
-/-- `p.parameter()`: any token is a parameter name, except an invalid character (parse error) -/
-def parameter (s : TokStream) : PM ONode := do
+/-- `p.parameter()`: the current token as an identifier node (the list is checked as a whole by `okParamList`) -/
+def parameter (_s : TokStream) : PM ONode := do
   let st ← getSt
-  if st.cur.type = .ILLEGAL then
-    errorLine s
-    pushErr .illegalParam
   pure (some (.ident st.cur.tk))
 
 /-- `for p.peekTokenIs(token.COMMA) { nextToken; nextToken; append parameter }` -/
@@ -209,10 +206,13 @@ def parseFunctionParameters (s : TokStream) (fuel : Nat) : PM (NList × Bool) :=
     let ids ← parseFunctionParametersLoop s fuel [id]
     if !(← expectPeek s .RPAREN) then pure ([], false)
     else
-      let st ← getSt
-      match st.prev with
-      | none => goPanic .nilPrevToken
-      | some p => pure (ids, p.type = .DOTDOT)
+      -- the rule of lambda parameters: identifiers, the last one can be `..` (paramError otherwise)
+      match okParamList ids with
+      | some (t, true) => pure (ids, t.isSome)
+      | _ =>
+        errorLine s
+        pushErr .funcParams
+        pure ([], false)
 
 /-- rewrite the value of every nil key of the flat key/value list -/
 def setNilKeyVals (v : ONode) : NList → NList
